@@ -14,7 +14,18 @@ NAMES = ("exceptions", "io", "signal", "plotting", "util", "core", "workers")
 
 def load():
     L = loader.load(NAMES, import_map=S.modules())
+    no_finalisers(L.modules["workers"])
     return L
+
+
+def no_finalisers(W):
+    """AudioDataSaverWorker.__del__ drains its inbox and closes its file when the object is collected - at a moment the
+    garbage collector chooses, possibly in the middle of another scheduled run.  Finalisers are outside every property; they
+    are switched off in the loaded copy."""
+    try:
+        W.AudioDataSaverWorker.__del__ = lambda self: None
+    except AttributeError:
+        pass
 
 
 def tagged_audio(K, samples_per_window=1):
@@ -143,4 +154,5 @@ def load_real(cli=False):
         setattr(pkg, n, m)
         exec(compile(tree, path, "exec"), m.__dict__)
         mods[n] = m
+    no_finalisers(mods["workers"])
     return mods
